@@ -20,12 +20,14 @@
 package main
 
 import (
+	"crypto/sha256"
 	"flag"
 	"fmt"
 	"go/ast"
 	"go/constant"
 	"go/importer"
 	"go/parser"
+	"go/printer"
 	"go/token"
 	"go/types"
 	"math/big"
@@ -38,16 +40,18 @@ import (
 type untr struct{ msg string }
 
 type tr struct {
-	fset   *token.FileSet
-	info   *types.Info
-	pkg    *types.Package
-	funcs  map[string]*ast.FuncDecl
-	done   map[string]string // translated function name -> lean text ("" while in progress)
-	order  []string
-	bad    map[string]string // function -> reason
-	panics map[string]bool   // Arg-returning function has a panic leaf
-	n      int
-	nodes  int
+	fset     *token.FileSet
+	info     *types.Info
+	pkg      *types.Package
+	funcs    map[string]*ast.FuncDecl
+	done     map[string]string // translated function name -> lean text ("" while in progress)
+	order    []string
+	bad      map[string]string          // function -> reason
+	panics   map[string]bool            // Arg-returning function has a panic leaf
+	curTypes map[string]bool            // Go types of the non-nil results seen while translating the current case
+	ftypes   map[string]map[string]bool // the same per Arg-returning helper
+	n        int
+	nodes    int
 }
 
 func (t *tr) fail(n ast.Node, f string, a ...interface{}) {
@@ -867,7 +871,20 @@ func (t *tr) ret(e ast.Expr, en env, fc *fctx) string {
 		// a call of an Arg-returning helper, or an interface-typed local: only the former is in the fragment
 		if c, ok := e.(*ast.CallExpr); ok {
 			var ck checks
+			saved := t.curTypes
+			t.curTypes = map[string]bool{}
 			s := t.call(c, en, &ck)
+			if ft, ok := t.ftypes[t.callee(c)]; ok {
+				for k := range ft {
+					saved[k] = true
+				}
+			} else {
+				for k := range t.curTypes {
+					saved[k] = true
+				}
+				t.ftypes[t.callee(c)] = t.curTypes
+			}
+			t.curTypes = saved
 			if t.panics[t.callee(c)] {
 				fc.panics = true
 				return guard(ck, fc.ind+s, fc.ind, fc)
@@ -881,6 +898,9 @@ func (t *tr) ret(e ast.Expr, en env, fc *fctx) string {
 	}
 	var ck checks
 	t.scan(e, en, &ck)
+	if t.curTypes != nil {
+		t.curTypes[types.TypeString(ty, func(*types.Package) string { return "" })] = true
+	}
 	return guard(ck, fc.ind+".val", fc.ind, fc)
 }
 
@@ -1030,8 +1050,13 @@ func (t *tr) function(name string) (reason string) {
 func main() {
 	repo := flag.String("repo", "/repo", "goom tree")
 	out := flag.String("out", "", "output .lean")
+	dirFlag := flag.String("dir", "", "package directory (default <repo>/internal/arch/arm64asm); used to translate the reference decoder too")
+	meta := flag.String("meta", "", "optional JSON: per kind the Go result types, and a content hash of every function of the package")
 	flag.Parse()
 	dir := filepath.Join(*repo, "internal/arch/arm64asm")
+	if *dirFlag != "" {
+		dir = *dirFlag
+	}
 	fset := token.NewFileSet()
 	pkgs, err := parser.ParseDir(fset, dir, func(fi os.FileInfo) bool { return !strings.HasSuffix(fi.Name(), "_test.go") }, parser.ParseComments)
 	if err != nil {
@@ -1057,7 +1082,7 @@ func main() {
 		fmt.Fprintln(os.Stderr, "type check:", err)
 		os.Exit(1)
 	}
-	t := &tr{fset: fset, info: info, pkg: pkg, funcs: map[string]*ast.FuncDecl{}, done: map[string]string{}, bad: map[string]string{}, panics: map[string]bool{}}
+	t := &tr{fset: fset, info: info, pkg: pkg, funcs: map[string]*ast.FuncDecl{}, done: map[string]string{}, bad: map[string]string{}, panics: map[string]bool{}, ftypes: map[string]map[string]bool{}, curTypes: map[string]bool{}}
 	var condNames []string
 	for i, f := range files {
 		base := filepath.Base(names[i])
@@ -1100,6 +1125,7 @@ func main() {
 	}
 	xParam := sig.Params().At(1)
 	type kcase struct {
+		types  []string
 		panics bool
 		name   string
 		val    int64
@@ -1150,6 +1176,13 @@ func main() {
 						}
 						kc.reason = u.msg
 					}
+				}()
+				t.curTypes = map[string]bool{}
+				defer func() {
+					for k := range t.curTypes {
+						kc.types = append(kc.types, k)
+					}
+					sort.Strings(kc.types)
 				}()
 				xn := t.fresh("x")
 				fc := &fctx{ret: "out", ind: "  "}
@@ -1305,6 +1338,55 @@ func main() {
 	if err := os.WriteFile(*out, []byte(sb.String()), 0o644); err != nil {
 		fmt.Fprintln(os.Stderr, err)
 		os.Exit(1)
+	}
+	if *meta != "" {
+		var mb strings.Builder
+		mb.WriteString("{\n \"kinds\": {")
+		for i, c := range cases {
+			if i > 0 {
+				mb.WriteString(",")
+			}
+			mb.WriteString(fmt.Sprintf("\n  \"%d\": {\"name\": \"%s\", \"types\": [", c.val, c.name))
+			for j, ty := range c.types {
+				if j > 0 {
+					mb.WriteString(", ")
+				}
+				mb.WriteString("\"" + ty + "\"")
+			}
+			mb.WriteString("]}")
+		}
+		mb.WriteString("\n },\n \"funcs\": {")
+		var fnames []string
+		sums := map[string]string{}
+		for _, f := range files {
+			for _, d := range f.Decls {
+				fd, ok := d.(*ast.FuncDecl)
+				if !ok || fd.Body == nil {
+					continue
+				}
+				key := fd.Name.Name
+				if fd.Recv != nil && len(fd.Recv.List) == 1 {
+					var rb strings.Builder
+					printer.Fprint(&rb, fset, fd.Recv.List[0].Type)
+					key = strings.TrimPrefix(rb.String(), "*") + "." + key
+				}
+				var bb strings.Builder
+				fd2 := *fd
+				fd2.Doc = nil
+				printer.Fprint(&bb, token.NewFileSet(), &fd2) // positions dropped: comments inside the body are not printed
+				sums[key] = fmt.Sprintf("%x", sha256.Sum256([]byte(bb.String())))
+				fnames = append(fnames, key)
+			}
+		}
+		sort.Strings(fnames)
+		for i, k := range fnames {
+			if i > 0 {
+				mb.WriteString(",")
+			}
+			mb.WriteString(fmt.Sprintf("\n  \"%s\": \"%s\"", k, sums[k]))
+		}
+		mb.WriteString("\n }\n}\n")
+		os.WriteFile(*meta, []byte(mb.String()), 0o644)
 	}
 	nb := 0
 	for _, c := range conds {
